@@ -248,6 +248,20 @@ func (r *Receiver) SegmentHandlerFunc(w http.ResponseWriter, req *http.Request) 
 					}
 				}
 			}
+			if rsd.chunkNr > 0 {
+				// Later chunks of the segment get the same time shift and timescale as the first one.
+				inTime := moof.Traf.Tfdt.BaseMediaDecodeTime()
+				t := int64(inTime)
+				if rsd.shouldBeShifted && masterTimeShift != 0 {
+					t += masterTimeShift * int64(trd.timeScaleIn) / int64(masterTimescale)
+				}
+				if trd.timeScaleOut != trd.timeScaleIn {
+					t = rescaleTime(t, trd.timeScaleIn, trd.timeScaleOut)
+				}
+				if uint64(t) != inTime {
+					moof.Traf.Tfdt.SetBaseMediaDecodeTime(uint64(t))
+				}
+			}
 			//TODO. Add test cases for multiple-chunks rewrite
 			mfhdChanged := false
 			if moof.Mfhd.SequenceNumber != rsd.seqNr {
